@@ -140,5 +140,18 @@ theorem HosvdFacts.err_eq (hF : HosvdFacts X tol dimorder seq ranks T tr) (hX : 
 
 end facts
 
+theorem hosvd_run_of_ok {eigh : Nat → Mat ℝ → List ℝ × Mat ℝ} {X : Dense ℝ} {tol : ℝ}
+    {dimorder : Option (List Nat)} {seq : Bool} {ranks : Option (List Nat)} {T : Ttensor ℝ}
+    (h : hosvd realOps eigh X tol dimorder seq ranks = .ok T) :
+    ∃ tr, hosvdRun realOps eigh X tol dimorder seq ranks = .ok (T, tr) := by
+  unfold hosvd at h
+  cases hr : hosvdRun realOps eigh X tol dimorder seq ranks with
+  | error e => rw [hr] at h; cases h
+  | ok p =>
+    rw [hr] at h
+    obtain ⟨T', tr⟩ := p
+    cases h
+    exact ⟨tr, rfl⟩
+
 end Tk
 end Pyttb
